@@ -72,4 +72,9 @@ Frag ==
   { <<"frag", "0">>, <<"frag", "1">>, <<"get", "6", "0", "0", "-1">>, <<"get", "6", "0", "-1", "-1">>,
     <<"get", "7", "0", "0", "-1">>, <<"get", "HO", "1", "0", "-1">>, <<"get", "0", "0", "0", "-1">>,
     <<"putnew", "0", "-1">>, <<"drain">> }
+\* completely allocated huge frames: targeted allocations into them must fail without touching the counter,
+\* and the blocks that fill them must remain freeable
+Full ==
+  { <<"get", "8", "0", "-1", "-1">>, <<"gat", "0", "0", "-1", "held">>, <<"gat", "6", "0", "0", "held">>,
+    <<"gat", "7", "0", "-1", "held">>, <<"putnew", "0", "-1">>, <<"putold", "0", "-1">>, <<"get", "HO", "1", "-1", "-1">> }
 =============================================================================
